@@ -28,7 +28,7 @@ DEADLINE = {"quick": 200, "thorough": 1100}
 def build(ctx):
     vs = ctx.vsched_obj()
     exes = ctx.build_many([dict(name="h08", sources=["h08.cpp"], opt="-O1", libs=["-ldl"]),
-                           dict(name="h08s", sources=["h08s.cpp"], opt="-O1", objects=[vs])])
+                           dict(name="h08s", sources=["h08s.cpp"], flags=ctx.atomic_points(), opt="-O1", objects=[vs])])
     # the same scheduler-harness bodies free-running on real threads under ThreadSanitizer (guards "no unsynchronised sharing"
     # in the Writer pipeline: producer, pool workers running the encoders, write thread)
     return {"h08": exes[0], "h08s": exes[1], "h08stsan": ctx.build_tsan_free("h08stsan", ["h08s.cpp"])}
